@@ -771,3 +771,12 @@ BENIGN = [
     ("stv finish test flipped", [(STV, "        if len(elected_cands) == self.m:\n            return True", "        if self.m == len(elected_cands):\n            return True")]),
     ("selector loop as not >=", [(UT, "    while num_elected < m:", "    while not num_elected >= m:")]),
 ]
+
+# the selector re-arranged as "test first, append only what fits": same iteration table (rules/selmodel.py)
+from rules.c10 import _SEL_REGION, _SEL_TEST_FIRST  # noqa: E402
+FAULTS += [
+    ("test-first selector, a group that exactly fills the seats is sent to the tiebreak", [(UT, _SEL_REGION, _SEL_TEST_FIRST % ("<", ""))], "C01.R5"),
+]
+BENIGN += [
+    ("test-first selector", [(UT, _SEL_REGION, _SEL_TEST_FIRST % ("<=", ""))]),
+]
